@@ -256,8 +256,10 @@ def check_case(case, acc=None) -> Outcome:
 
 def shards(tier):
     if tier == "quick":
-        return [{"kind": "program", "name": f"s{i}", "n": 6, "rotate": 37 + i * 67} for i in range(8)]
-    return [{"kind": "program", "name": f"s{i}", "n": 90, "rotate": 37 + i * 67} for i in range(16)]
+        return [{"kind": "program", "name": f"s{i}", "n": 6, "rotate": 37 + i * 67} for i in range(8)] + [
+            {"kind": "program", "name": f"multi-out{i}", "n": 5, "rotate": 11 + i * 31, "multi_output": True} for i in range(3)]
+    return [{"kind": "program", "name": f"s{i}", "n": 90, "rotate": 37 + i * 67} for i in range(16)] + [
+        {"kind": "program", "name": f"multi-out{i}", "n": 90, "rotate": 11 + i * 31, "multi_output": True} for i in range(6)]
 
 
 def run_shard(spec, seed, tier) -> Acc:
@@ -265,7 +267,14 @@ def run_shard(spec, seed, tier) -> Acc:
     if spec["kind"] == "__corpus__":
         return core.corpus_shard(sys.modules[__name__], acc)
     is_known, _ = core.known_matcher(ID)
-    core.hyp_run(case_strategy({"rotate": spec.get("rotate", 0), "allow_zero": False, "max_dims": 3}), lambda c: check_case(c, acc), seed=seed, max_examples=spec["n"], acc=acc,
+    opts = {"rotate": spec.get("rotate", 0), "allow_zero": False, "max_dims": 3}
+    if spec.get("multi_output"):
+        # operations with several outputs (one task writes a chunk of each): a crash between the writes of one task leaves the
+        # first output complete and a later one not
+        from vp.ir import OPS
+
+        opts["only_ops"] = sorted(n for n, o in OPS.items() if {"multi-output", "multi-output-single-parent", "pick"} & set(o.tags)) + ["add", "negative", "sum"]
+    core.hyp_run(case_strategy(opts), lambda c: check_case(c, acc), seed=seed, max_examples=spec["n"], acc=acc,
                  budget_s=420 if tier == "quick" else 3000, shrink=False, is_known=is_known)
     return acc
 
